@@ -95,13 +95,17 @@ def handleMWU (ins outs : List J) : Verdict :=
         match n1J.nat?, n2J.nat?, uJ.flt?, pJ.flt? with
         | some g1, some g2, some gu, some (.fin gp) =>
           let pI := approxP alt numer var
-          verdictOf (base ++ " approx")
+          -- the formula evaluates Φ(z) directly (z < 0, lower tail) or as 1 − Φ(z): in the first case the
+          -- p-value is held to its own size however small, in the second to the absolute resolution of 1 − Φ
+          let direct := (alt == .less || alt == .differs) && numer < 0
+          let atolA : Rat := if direct then 1 / pow2 1000 else 1 / pow2 48
+          verdictOf (base ++ " approx" ++ (if direct && pI.hi < 1 / 1000000000000 then " deep-tail" else ""))
             [("model-U-eq-pairU", uOk, "uFromRanks ≠ pairU"),
              ("args-unmodified", argsJ.nat? == some 1, "slices changed"),
              ("N1N2", g1 == n1 && g2 == n2, s!"go {g1},{g2}"),
              ("U", gu == .fin u, s!"go={gu.str} model={ratStr u}"),
              ("P-range", decide (-atolP ≤ gp ∧ gp ≤ 1 + atolP), s!"go={ratStr gp}"),
-             ("approx-P", decide (pI.lo - atolP - rtolP * pI.hi ≤ gp ∧ gp ≤ pI.hi + atolP + rtolP * pI.hi),
+             ("approx-P", decide (pI.lo - atolA - rtolP * pI.hi ≤ gp ∧ gp ≤ pI.hi + atolA + rtolP * pI.hi),
                s!"go={ratStr gp} model=[{ratStr pI.lo},{ratStr pI.hi}] numer={ratStr numer} var={ratStr var}")]
         | _, _, _, _ => .badOp "mwu: parse out"
       | _, .errSize => .fail "error-kind" s!"model expects ErrSampleSize, go returned {" ".intercalate (outs.map J.render)}"
